@@ -229,11 +229,11 @@ Fixpoint cfg_stmt (s : stmt) (k : conts) : list edge :=
       let fe := entry_block final (knext k) in            (* where normal completion goes *)
       let jt (outer : list label) := if nofin then outer else fe in
       let he := entry_blocks hs fe in
-      let prot := jor (jor (jumps_stmt s0) (jumps_block body)) (jumps_block orelse) in
+      let prot := jor (jor (jor (jumps_stmt s0) (jumps_block body)) (jumps_block orelse)) (jumps_blocks hs) in
       let direct := (falls_stmt s0 && falls_block body && falls_block orelse) || falls_blocks hs in
       let kbody := mkconts (entry_block orelse fe) (jt (kbrk k)) (jt (kcont k)) (jt (kret k)) (he ++ kraise k) in
       let korelse := mkconts fe (jt (kbrk k)) (jt (kcont k)) (jt (kret k)) (kraise k) in
-      let khandler := mkconts fe (kbrk k) (kcont k) (kret k) (kraise k) in
+      let khandler := mkconts fe (jt (kbrk k)) (jt (kcont k)) (jt (kret k)) (kraise k) in
       let kfinal := mkconts (sel direct (knext k) ++ sel (jb prot) (kbrk k) ++ sel (jc prot) (kcont k) ++ sel (jr prot || jx prot) (kret k))
                             (kbrk k) (kcont k) (kret k) (kraise k) in
       cfg_stmt s0 (mkconts (entry_block body (knext kbody)) (kbrk kbody) (kcont kbody) (kret kbody) (kraise kbody))
@@ -284,9 +284,11 @@ with raises_blocks (h : blocks) : list label :=
   match h with HNil => [] | HCons b r => raises_block b ++ raises_blocks r end.
 
 (* ------------------------------------------------------------------------ *)
-(* Guard of the known finding `jump-in-handler-of-try-finally`: cfg.py pops the
-   lexical scope of a try before visiting its handlers, so a break / continue /
-   return written in an except body is not wired through that try's finally. *)
+(* Historical: this used to be the guard of the finding `jump-in-handler-of-try-finally` (cfg.py
+   popped the lexical scope of a try before visiting its handlers, so a jump written in an except
+   body was not wired through that try's finally).  The defect is repaired in /repo; the predicate
+   is now true of every program (guard_true in SkelProofs.v) and is kept so that statements that
+   mention it stay stable. *)
 Definition no_jumps (j : jumps) : bool := negb (jb j) && negb (jc j) && negb (jr j).
 
 Fixpoint guard_stmt (s : stmt) : bool :=
@@ -296,7 +298,6 @@ Fixpoint guard_stmt (s : stmt) : bool :=
   | SWith _ _ body => guard_block body
   | STry s0 body hs orelse final =>
       guard_stmt s0 && guard_block body && guard_blocks hs && guard_block orelse && guard_block final
-      && (is_nil final || no_jumps (jumps_blocks hs))
   end
 with guard_block (b : block) : bool :=
   match b with BNil => true | BCons s r => guard_stmt s && guard_block r end
